@@ -108,6 +108,10 @@ def c04(tier: str) -> list[dict[str, Any]]:
     return out
 
 
+def _previous(run: Any) -> None:
+    trav.setup_previous(run)
+
+
 def _extra_vm_state(run: Any) -> None:
     """An unusual but legal node: the test that saves a removable image state also saves an unmarked vm state."""
     for n in run.graph.nodes:
@@ -148,6 +152,8 @@ def c08(tier: str) -> list[dict[str, Any]]:
         plan("G5 worker with excluding restrictions", trav.menu("G5"), m, K=1, statuses=["PASS"]),
         plan("G6 remote clusters", trav.menu("G6b"), m, K=1, statuses=["PASS"], pool_fixed={"install": ["shared"]}),
         plan("G6c two remote workers behind one gateway", trav.menu("G6c"), m, K=1, statuses=["PASS"], pool_fixed=DEEP),
+        plan("G2 eager with a replayed previous job (solver-chosen results and producing worker)", trav.menu("G2", lazy=False, params={"replay": "job1"}, label="G2-replay"), m, K=1, statuses=["PASS"], pool_bits="all", pool_states=["customize"], pool_fixed={"install": ["shared"]}, setup=_previous),
+        plan("G1 retries with varying recorded durations (PASS may be downgraded to WARN)", trav.menu("G1", params={"max_tries": "2"}, label="G1-elapsed"), m, K=1, statuses=["PASS"], elapsed_options=["1", "2"], pool_fixed={"install": ["shared"]}),
     ]
     if tier == "thorough":
         out += [
